@@ -21,6 +21,7 @@ TREES = {
     "T3": [("plan", [("s2", [])])],
     "T4": [("plan", [("s2", [("s3", [])])])],
     "T5": [("plan", [("s2", []), ("s3", [])])],
+    "T6": [("plan", [("s2", [("s3", [("s4", [])])]), ("s5", [])])],
 }
 
 
@@ -108,6 +109,14 @@ def universe(tier):
                     if len({(c[0], c[1], c[2]) for c in combo}) < len(combo):
                         continue
                     yield {"bi": bi, "tier": tier, "tree": tk, "ov": combo}
+            # the same attribute of one task overridden in TWO scenarios, the statements written in either order (descendants that have
+            # no value of their own take the nearest ancestor's, whichever statement comes first in the body)
+            if len(sids) >= 3:
+                tid = first_two_leaves(base["tasks"])[0]
+                pairs = [("effort", "x2", "half")] + ([("end", "2025-01-15-17:00", "2025-01-14-12:00")] if base["alap"] else [("start", "2025-01-08-10:00", "2025-01-09-13:00")])
+                for attr, v1, v2 in pairs:
+                    for sa, sb in itertools.permutations(sids, 2):
+                        yield {"bi": bi, "tier": tier, "tree": tk, "ov": ((sa, tid, attr, v1), (sb, tid, attr, v2))}
 
 
 def find_task(tasks, tid):
